@@ -3,6 +3,7 @@ use serde_json::Value as J;
 
 pub mod c01;
 pub mod c03;
+pub mod c04;
 pub mod c05;
 pub mod c06;
 pub mod c07;
@@ -26,6 +27,7 @@ pub fn all() -> Vec<Property> {
     vec![
         Property { id: "C01", run: c01::run, replay: c01::replay },
         Property { id: "C03", run: c03::run, replay: c03::replay },
+        Property { id: "C04", run: c04::run, replay: c04::replay },
         Property { id: "C05", run: c05::run, replay: c05::replay },
         Property { id: "C06", run: c06::run, replay: c06::replay },
         Property { id: "C07", run: c07::run, replay: c07::replay },
